@@ -26,6 +26,11 @@ def run(ck, an, tier):
     s3(ck, an)
     s4(ck, an)
     s5(ck, an)
+    from rules import C11
+    from sa.report import Renamed
+    d = Renamed(ck, "C11:")
+    C11.s1(d, an)       # a chain key resolves to its current lead, recomputed on every lookup
+    C11.s3(d, an)
 
 
 def s1(ck, an):
